@@ -8,7 +8,9 @@ import (
 	"go/types"
 	"os"
 	"path/filepath"
+	"regexp"
 	"sort"
+	"strconv"
 	"strings"
 )
 
@@ -103,7 +105,10 @@ type FuncSpec struct {
 type SiteAssert struct {
 	At   string
 	Expr string
+	Ord  int // 0: every line containing At; n>0: only the n-th such line of the function, in source order
 }
+
+var siteOrdRE = regexp.MustCompile(`"#(\d+):`)
 
 func (f *FuncSpec) hasContract() bool {
 	return len(f.Requires) > 0 || len(f.Ensures) > 0 || len(f.Modifies) > 0 || f.Pure || f.Trusted
@@ -380,7 +385,12 @@ func LoadSpecs(dir, pkgPath, pkgName string) (*Specs, error) {
 		case "assert":
 			if curF != nil {
 				// assert at "text": expr
-				if i := strings.Index(rest, "\":"); strings.HasPrefix(rest, "at \"") && i > 0 {
+				if m := siteOrdRE.FindStringSubmatchIndex(rest); strings.HasPrefix(rest, "at \"") && m != nil && (strings.Index(rest, "\":") < 0 || m[0] < strings.Index(rest, "\":")) {
+					// assert at "text"#n: expr  (only the n-th line of the function containing the text)
+					n, _ := strconv.Atoi(rest[m[2]:m[3]])
+					curF.Asserts = append(curF.Asserts, SiteAssert{At: rest[4:m[0]], Expr: strings.TrimSpace(rest[m[1]:]), Ord: n})
+					last = &curF.Asserts[len(curF.Asserts)-1].Expr
+				} else if i := strings.Index(rest, "\":"); strings.HasPrefix(rest, "at \"") && i > 0 {
 					curF.Asserts = append(curF.Asserts, SiteAssert{At: rest[4:i], Expr: strings.TrimSpace(rest[i+2:])})
 					last = &curF.Asserts[len(curF.Asserts)-1].Expr
 				}
